@@ -347,7 +347,14 @@ def rule_counter(chk: Check, view: AsyncView, rid: str):
     ok = len(recs) == 1 and len(pops) == 1 and recs[0].loops == pops[0].loops and bool(pops[0].loops)
     if ok:
         rec = recs[0].args[0]
-        ok = rec == T.mk_replace(T.mk_index(pops[0].term, T.const(0)), (("seq_in", S("self._tick")),))
+        popped = T.mk_index(pops[0].term, T.const(0))
+        ok = rec == T.mk_replace(popped, (("seq_in", S("self._tick")),))
+        if not ok and rec[0] == "obj" and rec[1] == "MessageRecord":
+            # the stamped copy built field by field: seq_in = the tick, every other field taken from the popped record
+            f_ = dict(rec[2])
+            ci_ = view.model.find_class("MessageRecord")
+            names_ = view.model.dataclass_fields(ci_) if ci_ is not None else []
+            ok = bool(names_) and set(f_) == set(names_) and f_.get("seq_in") == S("self._tick") and all(f_[k] == T.mk_attr(popped, k) for k in names_ if k != "seq_in")
         n = T.mk_index(sel.term, T.const(1))
         ok = ok and r.loops[pops[0].loops[-1]].iter == T.mk_call("range", [n])
     chk.add(rid, "messages stamped with seq_in and recorded", ok, "each of the num_msgs popped messages must be recorded with seq_in = the pre-increment connection tick", chk.loc(fi))
